@@ -390,7 +390,8 @@ def solve_with(solver, A, b, nthreads=1, fl_mode="default"):
     S = mk(Sp(n, n, {(i, j): A[i][j] for i in range(n) for j in range(n) if A[i][j] != 0}), 0)
     o = it.new_obj("dense", 1); o.cells[0] = dict(nrow=n, ncol=1, x=G.Ptr(it.array("Atb", [F(v) for v in b]), 0))
     cc = it.array("common", [dict(status=0, fl=F(0), lnz=F(0), modfl=F(0), nmethods=9, method=G.Ptr(it.array("methods", [dict(ordering=q) for q in range(10)]), 0))])
-    r = it.call(solver, [S, G.Ptr(o, 0), 0, G.Ptr(cc, 0)])
+    if solver == "cholesky_solve": r = it.call(solver, [S, G.Ptr(o, 0), G.Ptr(cc, 0), 0, nthreads - 1])       # (AtA, Atb, c, verbose, n_resolves)
+    else: r = it.call(solver, [S, G.Ptr(o, 0), 0, G.Ptr(cc, 0)])
     return [v.num for v in r.obj.cells[0]["x"].obj.cells[:n]]
 
 def run_case(args):
